@@ -208,6 +208,7 @@ func pickFocus(r *Rng) []filt {
 // zone, with a literal Z, with a numeric offset, with a zone abbreviation).
 var dateWords = []string{"2017-07-09", "March 3, 2021", "2020-02-29 12:00", "02 Jan 2006", "Mon, 02 Jan 2006 15:04:05 -0700",
 	"2017-07-09T10:40:00Z", "2017-07-09T10:40:00+02:00", "20170709T104000Z", "2017-01-09 10:40:00 -0700", "2017-07-09 10:40:00 UTC",
+	"2017-07-09T08:40:00Z", "2017-07-09T14:10:00+05:30", "2017-07-09T08:40:00+00:00", // the same instant as the +02:00 one above, in other zones
 	"Jan 2 2006", "02 January 2006", "2017-07-09 10:40:00", "Mon Jan  2 15:04:05 2006", "Monday, 02-Jan-06 15:04:05 MST", "2017-01-09 10:40:00 EST"}
 
 func scopeOf(e *Env) scope {
@@ -259,6 +260,10 @@ func (g *Gen) numAtom(sc scope) string {
 		return pick(g.r, sc.nums)
 	}
 	if g.r.Chance(0.2) {
+		if g.r.Chance(0.25) {
+			// spellings of the same or nearly the same number
+			return pick(g.r, []string{"0.0", "-0.0", "-0", "1.0", "1.50", "1.5", "-1.5", "2.0", "007", "0.10", "0.1"})
+		}
 		return fmt.Sprintf("%d.%d", g.r.Range(0, 9), g.r.Range(0, 99))
 	}
 	return g.intLit()
@@ -545,7 +550,18 @@ func (g *Gen) scalarExpr(sc scope) string {
 
 func (g *Gen) cond(sc scope) string {
 	one := func() string {
-		switch g.r.Intn(7) {
+		switch g.r.Intn(8) {
+		case 7: // equality of composite values (maps, records, lists), some of them near-copies
+			all := append(append(append([]string{"p", "q", "d"}, sc.maps...), sc.arrs...), "recs[0]", "recs[1]", "site.cfg", "site.aux")
+			a, b := pick(g.r, all), pick(g.r, all)
+			hasM3 := false
+			for _, n := range sc.maps {
+				hasM3 = hasM3 || n == "m3"
+			}
+			if hasM3 && g.r.Chance(0.6) {
+				return pick(g.r, []string{"m == m3", "m != m3", "m3 == m"})
+			}
+			return pick(g.r, []string{a + " == " + b, a + " != " + b, "arr contains " + a})
 		case 0:
 			return g.numAtom(sc) + " " + pick(g.r, []string{"==", "!=", "<", ">", "<=", ">="}) + " " + g.numAtom(sc)
 		case 1:
@@ -1056,6 +1072,11 @@ func (g *Gen) Template(e *Env) []*TNode {
 	}
 	ns := g.Nodes(scopeOf(e), 0, 8)
 	g.fixErrors(ns)
+	if g.r.Chance(0.02) {
+		// the page starts with what a site generator would take for YAML front matter
+		fm := []*TNode{{K: "text", S: "---\n"}, {K: "tag", S: "assign fm = " + g.scalarExpr(scopeOf(e))}, {K: "text", S: "title: x\n---\n"}}
+		ns = append(fm, append(ns, &TNode{K: "obj", S: "fm"})...)
+	}
 	if g.r.Chance(0.03) {
 		// deep nesting: the whole template inside 9..40 blocks, one per line
 		for i, d := 0, pick(g.r, []int{9, 10, 12, 16, 17, 24, 33, 40}); i < d; i++ {
